@@ -77,7 +77,7 @@ def jobs(tier):
 def requirements(tier):
     k = 1 if tier == "quick" else 10
     req = {
-        "ivp:free": 2000 * k,
+        "ivp:free": 2000 * k, "propagator:from_orbit:QSW": 20, "propagator:from_orbit:TNW": 20,
         "stream:evaluated": 2000 * k,
         "stream:maneuver-at-epoch": 100 * k,
         "ivp:inside-burn": 300 * k,
